@@ -180,4 +180,19 @@ TruncatedLookahead(n, i) == AnyNode(n, {"Peek"}) /\ \E k \in 1..Len(i.events) : 
 C04Equiv(n, i, c) ==
     Tri(i.res.ok /\ ~TruncatedLookahead(n, i),
         c.res.ok /\ ValEq(i.res.v, c.res.v) /\ (i.op = "parse" => i.res.p = c.res.p))
+
+\* C16  lazy parsing is observationally equal to eager parsing under any access order.
+\* eager: the recorded parse of the eager twin (Struct / Array / the bare member) of the same bytes;
+\* lz: [p: final position of the lazy parse, kind: "struct" | "array" | "thunk",
+\*      hist: sequence of [i: member index (1-based), nm: member name, ok, v: value returned, pb, pa: stream position before / after]]
+C16History(eager, lz) ==
+    \* a Lazy(x) whose member cannot be sized declines with SizeofError (it has no offsets table to fall back on)
+    Tri(eager.res.ok /\ ~(lz.kind = "thunk" /\ ~lz.ok /\ lz.err = "SizeofError"),
+        /\ lz.ok /\ lz.p = eager.res.p
+        /\ \A k \in 1..Len(lz.hist) :
+              LET h == lz.hist[k]
+                  ev == CASE lz.kind = "struct" -> (IF DHas(eager.res.v, h.nm) THEN DGet(eager.res.v, h.nm) ELSE VNone)
+                          [] lz.kind = "array" -> eager.res.v.xs[h.i]
+                          [] OTHER -> eager.res.v
+              IN h.ok /\ ValEq(h.v, ev) /\ h.pa = h.pb)
 =============================================================================
